@@ -205,9 +205,16 @@ def final_obs(reg, objs):
         # the same resolution reached through array creation + conversion, and through arithmetic
         # (with the alphabet Alias the base unit "s" of the mks system is itself edited, so reduction to mks base units
         # is not a fair probe there; the conversion entry points are probed at every construction step instead)
-        for via in ("mul",) if "s" in KEYS else ("in_base", "mul", "to_mks"):
+        for via in ("mul", "deepcopy") if "s" in KEYS else ("in_base", "mul", "to_mks", "deepcopy"):
             try:
-                if via == "in_base":
+                if via == "deepcopy":
+                    # a deep copy of the registry (what copy.deepcopy of any unit / quantity / container carries along)
+                    # holds the current contents: it resolves the string as the registry itself must
+                    import copy as _copy
+
+                    u = U["Unit"](p, registry=_copy.deepcopy(reg))
+                    obs = _unit_obs(u)
+                elif via == "in_base":
                     q = U["uq"](3.0, p, registry=reg)
                     b = q.in_base("mks")
                     obs = {"k": "unit", "s": _rat(float(b.d) * b.units.base_value / 3.0), "d": _dimvec(b.units.dimensions)}
